@@ -167,6 +167,8 @@ def judge(ctx, cases):
         actual = c.nat["ptrs"].split(",") if c.nat["ptrs"] != "-" else []
         assign = " ".join("A%d=%s" % (i, v) for i, v in enumerate(actual))
         calls = list(c.nat["calls"])
+        synth = False
+        stores = {int(e.split(":")[1][1:]) for e in c.pred.get("events", []) if e.startswith("W:A")}
         # internal functions living in the wrapper's own object cannot be interposed: when the
         # model predicts such a call and the native return value agrees, the call is taken as made
         if c.nat.get("fault") == "0":
@@ -175,7 +177,12 @@ def judge(ctx, cases):
                     vals = [wc.resolve_arg(t, [int(x, 16) for x in actual]) for t in a]
                     if all(v is not None for v in vals):
                         calls.append("%d(%s)" % (f, ",".join("%x" % v for v in vals)))
-        lines.append(wc.judge_line(c.cid, "16", c.eid, c.nat, c.stubret, calls, assign))
+                        synth = True
+            if any(e.startswith("E:") for e in c.pred.get("events", [])) and c.nat.get("ret") == "0":
+                synth = True      # an inlined helper (e.g. _rolling_hash2_init) really ran
+        # a real (non-interposed) internal function returned its own value, not the stub's
+        sr = int(c.nat["ret"], 16) if (synth or c.mode == "r") else c.stubret
+        lines.append(wc.judge_line(c.cid, "16", c.eid, c.nat, sr, calls, assign, real=(c.mode == "r" or synth), stores=stores))
     out = ctx.model_lines(lines)
     return {k: v.split()[1] if len(v.split()) > 1 else "?" for k, v in out.items()}
 
@@ -240,6 +247,8 @@ def run(tier, replay=None):
                           {"theorem": "C16_legacy_same_call", "entry": name}, {"entry": name, "kind": "legacy_differs"}, no_input=True)
 
     # ---- 2. sweep: NULL subsets x boundary scalars, internal symbols interposed
+    if replay and "args" not in json.load(open(replay))["replay"]:
+        replay = None          # a replay that names a theorem / correspondence: run everything
     if replay:
         r = json.load(open(replay))["replay"]
         eid = ctx.names[r["entry"]]
@@ -330,7 +339,7 @@ def run(tier, replay=None):
             rep.violation("legacy vs isal_ differential: %s seed=%s len=%s: %s" % (t[2], t[3], t[4], res),
                           {"pair": t[2], "seed": t[3], "len": t[4], "result": res}, {"entry": t[2], "kind": "legacy_differs"})
     # ---- verdict
-    for e, line in failing.items():
+    for e, line in (failing.items() if not replay else []):
         name = ctx.byid[e]
         confirmed = any(c.entry == name and verdicts.get(c.cid) != "accept" for c in ran)
         if not confirmed:
